@@ -405,7 +405,7 @@ Variable stored : list nat.
 Notation tset := (RTree.tset V veq vs ml mi).
 Notation tset_go := (TreeSetProofs.tset_go V veq vs ml mi).
 
-Definition set_post (fresh : nat) (t : tree) (r : sres V) : Prop :=
+Definition fset_post (fresh : nat) (t : tree) (r : sres V) : Prop :=
   let t' := s_tree r in
   fresh <= s_fresh r /\
   tid t' = tid t /\ is_leaf t' = is_leaf t /\
@@ -417,11 +417,11 @@ Definition set_post (fresh : nat) (t : tree) (r : sres V) : Prop :=
   (forall n', In n' (subs t') -> old_or_marked stored (s_ev r) fresh (subs t) n').
 
 (* what is assumed of a subtree: non-empty, proper subtrees of legal size, no embedding below *)
-Definition set_pre (t : tree) : Prop := 1 <= tsize t /\ szb t /\ nemb stored t.
-Definition set_ok (t : tree) : Prop :=
-  forall fresh k v iu, set_pre t -> set_post fresh t (tset fresh t k v iu).
+Definition fset_pre (t : tree) : Prop := 1 <= tsize t /\ szb t /\ nemb stored t.
+Definition fset_ok (t : tree) : Prop :=
+  forall fresh k v iu, fset_pre t -> fset_post fresh t (tset fresh t k v iu).
 
-Definition go_post (i : nat) (single : bool) (fresh : nat) (l : list (Z * tree))
+Definition fgo_post (i : nat) (single : bool) (fresh : nat) (l : list (Z * tree))
            (res : list (Z * tree) * status * option V * list event * nat * bool) : Prop :=
   let '(l1, st, rv, ev, f', g) := res in
   fresh <= f' /\
@@ -434,9 +434,9 @@ Definition go_post (i : nat) (single : bool) (fresh : nat) (l : list (Z * tree))
                    In (EEmbed i (tid c)) ev) /\
   (forall n', In n' (ksubs l1) -> old_or_marked stored ev fresh (ksubs l) n').
 
-Lemma set_ok_Leaf : forall i l, set_ok (Leaf i l).
+Lemma fset_ok_Leaf : forall i l, fset_ok (Leaf i l).
 Proof.
-  intros i l fresh k v iu _. unfold set_post. simpl.
+  intros i l fresh k v iu _. unfold fset_post. simpl.
   destruct (lset V veq vs l k v iu) as [[l' st] rv] eqn:E. simpl.
   split; [lia|]. split; [reflexivity|]. split; [reflexivity|]. split; [reflexivity|].
   split; [left; reflexivity|].
@@ -450,14 +450,14 @@ Proof.
   - split; [right; exact D|]. intros n' [<-|[]]. right. right. left. exact D.
 Qed.
 
-Lemma go_replace : forall i single fresh s c rest r emb,
-  set_post fresh c r ->
+Lemma fgo_replace : forall i single fresh s c rest r emb,
+  fset_post fresh c r ->
   (s_st r <> StNone -> is_leaf c = true -> single = true -> In (EEmbed i (tid c)) emb) ->
-  go_post i single fresh ((s, c) :: rest)
+  fgo_post i single fresh ((s, c) :: rest)
           ((s, s_tree r) :: rest, s_st r, s_val r, s_ev r ++ emb, s_fresh r, false).
 Proof.
   intros i single fresh s c rest r emb (P1 & P2 & P3 & P4 & P5 & P6 & P7 & P8 & P9) Hemb.
-  unfold go_post. split; [exact P1|]. split; [exact P4|].
+  unfold fgo_post. split; [exact P1|]. split; [exact P4|].
   split; [intros _; simpl; rewrite P2, P3; reflexivity|].
   split; [discriminate|].
   split. { rewrite !klids_cons. apply (Rs_ctx _ _ _ _ _ _ _ [] (klids rest) P5); [apply incl_appl, incl_refl | lia]. }
@@ -471,11 +471,11 @@ Proof.
   - apply oom_old. rewrite ksubs_cons. apply in_or_app. right. exact Hn.
 Qed.
 
-Lemma go_grow : forall i single fresh s c rest r emb,
-  set_post fresh c r -> size_ok c ->
+Lemma fgo_grow : forall i single fresh s c rest r emb,
+  fset_post fresh c r -> size_ok c ->
   s_st r <> StNone -> max_for (s_tree r) < tsize (s_tree r) ->
   (is_leaf c = true -> single = true -> In (EEmbed i (tid c)) emb) ->
-  go_post i single fresh ((s, c) :: rest)
+  fgo_post i single fresh ((s, c) :: rest)
           (let '(l', f', evg) := grow_at V (s_fresh r) s (s_tree r) rest in
            (l', St1, s_val r, s_ev r ++ EChanged i :: evg ++ emb, f', true)).
 Proof.
@@ -486,7 +486,7 @@ Proof.
   set (ev' := s_ev r ++ EChanged i :: [ENew (s_fresh r)] ++ emb).
   assert (I1 : incl (s_ev r) ev') by (apply incl_appl, incl_refl).
   unfold grow_at. destruct (split_node V (s_fresh r) (s_tree r)) as [a b] eqn:Esp.
-  fold ev'. unfold go_post.
+  fold ev'. unfold fgo_post.
   assert (Hab : tid a = tid c /\ tid b = s_fresh r /\ first_leaf a = first_leaf c /\
                 lids a ++ lids b = (if is_leaf c then [tid c; s_fresh r] else lids (s_tree r)) /\
                 (is_leaf c = true -> lids c = [tid c]) /\
@@ -526,16 +526,16 @@ Proof.
   - apply oom_old. rewrite ksubs_cons. apply in_or_app. right. exact Hn.
 Qed.
 
-Lemma go_ok : forall i single fresh k v iu l,
-  Forall (fun sc => set_ok (snd sc)) l ->
+Lemma fgo_ok : forall i single fresh k v iu l,
+  Forall (fun sc => fset_ok (snd sc)) l ->
   (forall s c, In (s, c) l -> size_ok c /\ szb c /\ nemb stored c) ->
-  go_post i single fresh l (tset_go i single fresh k v iu l).
+  fgo_post i single fresh l (tset_go i single fresh k v iu l).
 Proof.
   intros i single fresh k v iu l IH. induction IH as [|[s c] rest Hc _ IH2]; intros Hpre.
   - simpl. split; [lia|]. split; [reflexivity|]. split; [reflexivity|]. split; [discriminate|].
     split; [left; reflexivity|]. split; [auto|]. split; [congruence|]. intros n' [].
   - simpl in Hc. destruct (Hpre s c (or_introl eq_refl)) as (Hsz & Hszb & Hne).
-    assert (Hpost : set_post fresh c (tset fresh c k v iu)).
+    assert (Hpost : fset_post fresh c (tset fresh c k v iu)).
     { apply Hc. split; [unfold TreeBase.size_ok in Hsz; lia | auto]. }
     cbn [TreeSetProofs.tset_go]. destruct (chosen V k rest) eqn:Ch.
     + set (r := tset fresh c k v iu) in *.
@@ -543,19 +543,19 @@ Proof.
                      In (EEmbed i (tid c))
                         (if is_leaf (s_tree r) && single then [EEmbed i (tid (s_tree r))] else [])).
       { intros _ Hl ->. destruct Hpost as (_ & P2 & P3 & _). rewrite P2, P3, Hl. left. reflexivity. }
-      pose proof (go_replace i single fresh s c rest r _ Hpost Hemb) as G1.
+      pose proof (fgo_replace i single fresh s c rest r _ Hpost Hemb) as G1.
       destruct (s_st r) eqn:Est.
-      * pose proof (go_replace i single fresh s c rest r [] Hpost) as G0. rewrite Est in G0.
+      * pose proof (fgo_replace i single fresh s c rest r [] Hpost) as G0. rewrite Est in G0.
         apply G0. congruence.
       * exact G1.
       * destruct (max_for (s_tree r) <? tsize (s_tree r)) eqn:Elt; [|exact G1].
         apply Nat.ltb_lt in Elt.
-        apply (go_grow i single fresh s c rest r _ Hpost Hsz); [congruence | exact Elt |].
+        apply (fgo_grow i single fresh s c rest r _ Hpost Hsz); [congruence | exact Elt |].
         intros Hl Hs. apply Hemb; [congruence | exact Hl | exact Hs].
     + specialize (IH2 (fun s0 c0 H => Hpre s0 c0 (or_intror H))).
       destruct (tset_go i single fresh k v iu rest) as [[[[[l' st] rv] ev] f'] g].
       destruct IH2 as (Q1 & Q2 & Q3 & Q4 & Q5 & Q6 & Q7 & Q8).
-      unfold go_post. split; [exact Q1|]. split; [reflexivity|].
+      unfold fgo_post. split; [exact Q1|]. split; [reflexivity|].
       split; [intros Hg; simpl; rewrite (Q3 Hg); reflexivity|].
       split; [exact Q4|].
       split. { rewrite !klids_cons. pose proof (Rs_ctx _ _ _ _ _ _ _ (lids c) [] Q5 (incl_refl _) (le_n _)) as H.
@@ -576,13 +576,13 @@ Proof.
   pose proof (Rs_ctx _ _ _ _ _ _ _ [] [] H He Hf) as H'. simpl in H'. rewrite !app_nil_r in H'. exact H'.
 Qed.
 
-Lemma set_ok_Node : forall i kids, Forall (fun sc => set_ok (snd sc)) kids -> set_ok (Node i kids).
+Lemma fset_ok_Node : forall i kids, Forall (fun sc => fset_ok (snd sc)) kids -> fset_ok (Node i kids).
 Proof.
   intros i kids IH fresh k v iu (Hsz & Hszb & Hne).
   destruct kids as [|x r0]; [simpl in Hsz; lia|]. rewrite tset_Node.
   set (kids := x :: r0) in *. set (sg := length kids =? 1).
-  assert (G : go_post i sg fresh kids (tset_go i sg fresh k v iu kids)).
-  { apply go_ok; [exact IH|]. intros s c Hin.
+  assert (G : fgo_post i sg fresh kids (tset_go i sg fresh k v iu kids)).
+  { apply fgo_ok; [exact IH|]. intros s c Hin.
     destruct (szb_child _ _ _ _ Hszb Hin) as [H1 H2].
     destruct (nemb_child _ _ _ _ _ Hne Hin) as [_ H3]. auto. }
   destruct (tset_go i sg fresh k v iu kids) as [[[[[l1 st] rv] ev1] f1] g].
@@ -594,7 +594,7 @@ Proof.
     set (h := Nat.div2 (length l1)). assert (Hh : 1 <= h) by (apply div2_ge1; lia).
     set (ev := ERead i :: ev1 ++ [ENew f1; ENew (S f1)]).
     assert (I1 : incl ev1 ev) by (apply incl_tl, incl_appl, incl_refl).
-    unfold set_post. cbn [s_tree s_st s_ev s_fresh]. fold ev.
+    unfold fset_post. cbn [s_tree s_st s_ev s_fresh]. fold ev.
     split; [lia|]. split; [reflexivity|]. split; [reflexivity|].
     split. { rewrite !first_leaf_Node. cbn [kfirst]. rewrite first_leaf_Node, kfirst_firstn by exact Hh. exact Q2. }
     split. { rewrite !lids_Node. simpl. rewrite !lids_Node, app_nil_r, klids_halves.
@@ -613,7 +613,7 @@ Proof.
     + right. left. simpl. lia.
     + apply Hk. eapply ksubs_skipn. exact Hn.
   - set (ev := ERead i :: ev1). assert (I1 : incl ev1 ev) by (apply incl_tl, incl_refl).
-    unfold set_post. cbn [s_tree s_st s_ev s_fresh]. fold ev.
+    unfold fset_post. cbn [s_tree s_st s_ev s_fresh]. fold ev.
     split; [exact Q1|]. split; [reflexivity|]. split; [reflexivity|].
     split; [exact Q2|].
     split. { rewrite !lids_Node. apply (Rs_mono _ _ _ _ _ _ _ Q5 I1). lia. }
@@ -639,9 +639,9 @@ Proof.
     intros H. symmetry. apply D, H.
 Qed.
 
-Lemma set_ok_all : forall t, set_ok t.
+Lemma fset_ok_all : forall t, fset_ok t.
 Proof.
-  induction t as [i l|i kids IH] using (tree_ind' V); [apply set_ok_Leaf | apply set_ok_Node; exact IH].
+  induction t as [i l|i kids IH] using (tree_ind' V); [apply fset_ok_Leaf | apply fset_ok_Node; exact IH].
 Qed.
 
 (* a root holding a single leaf announces every change of that leaf *)
@@ -710,9 +710,9 @@ Proof.
     right. exists fresh. split; [simpl; auto|].
     destruct (mem fresh stored) eqn:Em; [|reflexivity]. apply Hst in Em. lia.
   - set (t := Node i0 kids) in *.
-    assert (Hpre : set_pre t).
+    assert (Hpre : fset_pre t).
     { split; [simpl; lia|]. split; [eapply WFbody_szb; exact Wt|]. apply (no_embed_nemb _ _ _ Hg). }
-    destruct (set_ok_all t fresh k v iu Hpre) as (P1 & P2 & P3 & P4 & P5 & P6 & P7 & P8 & P9).
+    destruct (fset_ok_all t fresh k v iu Hpre) as (P1 & P2 & P3 & P4 & P5 & P6 & P7 & P8 & P9).
     fold r in P1, P2, P3, P4, P5, P6, P7, P8, P9.
     apply find_node_subs in Fn. destruct Fn as [Sn Tn].
     apply find_node_subs in Fn'. destruct Fn' as [Sn' Tn'].
